@@ -3,6 +3,7 @@ package main
 import (
 	"fmt"
 	"sort"
+	"strings"
 
 	"github.com/cockroachdb/errors/errbase"
 )
@@ -821,6 +822,24 @@ func propCases(prop string, g *Gen, n int) []*Case {
 		}
 	case "C19":
 		obs := names("hints", "details", "flathints", "flatdetails", "links", "keys", "tags")
+		// texts that differ only in a rune some formatter might treat specially: every one is a distinct
+		// hint / detail, whichever constructor variant made it
+		for _, pair := range [][2]string{{"open with \u2039", "open with \u203a"}, {"a%b", "a%%b"}, {"x\n", "x"}, {"\u2039q\u203a", "?q?"}} {
+			for _, ops := range [][2]string{{"hint", "hintf"}, {"detail", "detailf"}} {
+				mk := func(op, txt string, k *R) *R {
+					if strings.HasSuffix(op, "f") {
+						return &R{Op: op, Kids: []*R{k}, Fmt: []FP{{Kind: "str", Verb: "s", S: txt}}}
+					}
+					return &R{Op: op, Kids: []*R{k}, S: []string{txt}}
+				}
+				for _, o1 := range ops {
+					for _, o2 := range ops {
+						r := mk(o2, pair[1], mk(o1, pair[0], &R{Op: "new", S: []string{"base"}}))
+						add(&Case{R: r, Obs: obs, Oracles: []string{"C19"}})
+					}
+				}
+			}
+		}
 		for i := 0; i < n; i++ {
 			add(&Case{R: g.Chain(g.r.intn(12)), Obs: obs, Oracles: []string{"C19"}})
 		}
